@@ -124,7 +124,7 @@ PROPS["C04"] = {
     "level_note": "Trusted: Lean kernel + 3 axioms; Go's recover semantics; nonce bookkeeping on the batch level is covered under C02; accounting records are compared as multisets; bodies are the harness token's script language (incl. the library's TokenBalanceTransfer) - other library methods are covered through C06/C13/C19 which run inside batches.",
     "trusted_base": ["core/cc_batch.go, task_executor.go modelled by Batch.txProg/batchProg/taskProg over the C12 cache model"],
     "hypotheses": [],
-    "not_modelled": ["InvokeChaincode result cache", "tracing pairs", "the decoding of stored swap records inside the robot's items is executable model code, not proved (string codec)"],
+    "not_modelled": ["InvokeChaincode result cache", "tracing pairs"],
     "assumptions": [],
 }
 PROPS["C05"] = {
